@@ -218,6 +218,67 @@ theorem activate_one_pending (w : World) (m : Nat) (e : Int) (h : OnePending w)
         have : ¬ (m = m' ∧ True) := by intro hh; exact hmm hh.1.symm
         simp [Ne.symm hmm]
 
+/-- the state in the middle of a tick, seen from miner `m` whose due proving-deadline event has
+    just been taken off the queue: its cron is active, nothing is queued for it, and every other
+    miner satisfies the invariant -/
+def MidTick (w : World) (m : Nat) : Prop :=
+  (∃ s, alookup m w.miners = some s ∧ s.cronActive = true) ∧
+  countDeadlineEvents w.power m = 0 ∧
+  ∀ m' s', m' ≠ m → alookup m' w.miners = some s' → m' ∈ w.power.claims →
+    countDeadlineEvents w.power m' = (if s'.cronActive then 1 else 0)
+
+/-- **The callback re-establishes "exactly one pending callback"**: when miner `m`'s
+    proving-deadline callback runs (successfully) at epoch `e ≥ 0`, then afterwards `m` has exactly
+    one queued proving-deadline event if it still has sectors, deposits or vesting funds, and is
+    inactive with none queued otherwise; nobody else's schedule is touched. -/
+theorem callback_one_pending (w : World) (m : Nat) (e : Int) (funds : Bool) (he : 0 ≤ e)
+    (h : MidTick w m) : OnePending (callback w m e funds false) := by
+  obtain ⟨⟨s, hs, hact⟩, hcnt, hothers⟩ := h
+  unfold callback
+  simp only [Bool.false_eq_true, if_false, hs]
+  cases funds with
+  | true =>
+    simp only [if_true]
+    have hge := lastOf_ge (advance s e).pps (e + 1)
+    unfold enroll
+    have hnn : ¬ (lastOf (advance s e).pps (e + 1) < 0) := by omega
+    simp only [hnn, if_false]
+    intro m' s' hs' hc'
+    simp only at hs' hc' ⊢
+    have hadv : (advance s e).cronActive = true := by
+      unfold advance
+      simp only
+      by_cases hlt : e < periodStartOf s.pps e
+      · rw [if_pos hlt]; exact hact
+      · rw [if_neg hlt]; exact hact
+    by_cases hmm : m' = m
+    · subst hmm
+      rw [alookup_aset_same] at hs'
+      injection hs' with hs'; subst hs'
+      have := count_append w.power (lastOf (advance s e).pps (e + 1), m', 1) m'
+      unfold countDeadlineEvents at this hcnt ⊢
+      simp only at this ⊢
+      rw [this, hcnt, hadv]; simp
+    · rw [alookup_aset_other _ _ _ _ hmm] at hs'
+      have h0 := hothers m' s' hmm hs' hc'
+      have := count_append w.power (lastOf (advance s e).pps (e + 1), m, 1) m'
+      unfold countDeadlineEvents at this h0 ⊢
+      simp only at this ⊢
+      rw [this, h0]
+      simp [Ne.symm hmm]
+  | false =>
+    simp only [Bool.false_eq_true, if_false]
+    intro m' s' hs' hc'
+    simp only at hs' hc' ⊢
+    by_cases hmm : m' = m
+    · subst hmm
+      rw [alookup_aset_same] at hs'
+      injection hs' with hs'; subst hs'
+      simp only [Bool.false_eq_true, if_false]
+      exact hcnt
+    · rw [alookup_aset_other _ _ _ _ hmm] at hs'
+      exact hothers m' s' hmm hs' hc'
+
 def OnePendingDec (w : World) : Bool :=
   w.miners.all (fun p => decide (countDeadlineEvents w.power p.1 = (if p.2.cronActive then 1 else 0)))
 
